@@ -78,8 +78,10 @@ def make_scratch(repo, groups, support):
         if m:
             # harnesses that need private items: appended INSIDE the module of the scratch copy's source file
             target = os.path.join(d, m.group(1))
+            # a group marked `//@native` holds ordinary #[test] functions (bounded native checks of the real code)
+            cfgname = "test" if re.search(r"(?m)^//@native\b", text) else "kani"
             with open(target, "a") as f:
-                f.write("\n#[cfg(kani)]\n#[allow(unused, non_snake_case)]\nmod verif_%s {\n%s\n}\n" % (g, text))
+                f.write("\n#[cfg(%s)]\n#[allow(unused, non_snake_case)]\nmod verif_%s {\n%s\n}\n" % (cfgname, g, text))
             continue
         shutil.copy(os.path.join(KDIR, g + ".rs"), os.path.join(vk, g + ".rs"))
         mods.append("pub mod %s;" % g)
@@ -131,6 +133,43 @@ def _run_batch(d, hs, mode, features, jobs, res, per_timeout, solver=""):
         pass
     res.solver_s["kani:%s:%s%s" % (mode, features or "core", ":" + solver if solver else "")] = round(wall, 1)
     return out
+
+
+def _run_native(d, hs, res, per_timeout):
+    """`//@mode native`: the harness is a #[test] fn injected into the scratch copy; run natively (release profile, debug
+    assertions off, default features).  Always a bounded stand-in (the harness states its bound in //@bounded)."""
+    results = {}
+    env = dict(os.environ)
+    env["CARGO_NET_OFFLINE"] = "true"
+    env["CARGO_TARGET_DIR"] = os.path.join(d, "target-native")
+    env["CARGO_PROFILE_RELEASE_DEBUG_ASSERTIONS"] = "false"
+    cmd = ["cargo", "test", "--release", "--lib", "--offline", "--"] + ["--exact"] * 0 + [h["harness"] for h in hs]
+    res.cmds.append("(scratch copy of /repo + injected #[cfg(test)] module) cargo test --release --lib --offline -- %s" % " ".join(h["harness"] for h in hs))
+    t0 = time.time()
+    try:
+        p = subprocess.run(cmd, cwd=d, env=env, stdout=subprocess.PIPE, stderr=subprocess.STDOUT, text=True, timeout=per_timeout + 900)
+        out = p.stdout
+    except subprocess.TimeoutExpired as e:
+        out = (e.stdout or b"").decode("utf8", "replace") if isinstance(e.stdout, bytes) else (e.stdout or "")
+        out += "\n<<timeout>>\n"
+    res.solver_s["native-test"] = round(time.time() - t0, 1)
+    try:
+        with open(os.path.join(VERIF, "build", "native-%s.log" % hs[0]["group"]), "w") as f:
+            f.write(out)
+    except OSError:
+        pass
+    for h in hs:
+        n = h["harness"]
+        m = re.search(r"(?m)^test \S*::%s \.\.\. (ok|FAILED)" % re.escape(n), out)
+        if not m:
+            errs = re.findall(r"(?ms)^error(?:\[E\d+\])?:.*?(?=^error|^warning|\Z)", out)
+            results[n] = {"status": "undecided", "reason": "compile-error" if errs else "no-result", "detail": ("\n".join(errs) or out[-1500:])[:3000]}
+        elif m.group(1) == "ok":
+            results[n] = {"status": "ok"}
+        else:
+            mm = re.search(r"(?ms)^---- \S*::%s stdout ----\n(.*?)(?=^---- |^failures:)" % re.escape(n), out)
+            results[n] = {"status": "failed", "kind": "native bounded check failed", "detail": (mm.group(1) if mm else out[-2000:])[:3000]}
+    return results
 
 
 def _blocks(out):
@@ -263,13 +302,22 @@ def run_groups(groups, repo, prop, tier, only=None):
         for (mode, features, solver), bh in sorted(batches.items()):
             per_timeout = max(int(h.get("timeout", "300")) for h in bh)
             jobs = min(8, len(bh))
-            out = _run_batch(d, bh, mode, features, jobs, res, per_timeout, solver)
-            cls = _classify(out, bh, mode)
+            if mode == "native":
+                for h in bh:
+                    h.setdefault("bounded", "native enumeration (see //@doc)")
+                cls = _run_native(d, bh, res, per_timeout)
+            else:
+                out = _run_batch(d, bh, mode, features, jobs, res, per_timeout, solver)
+                cls = _classify(out, bh, mode)
             for h in bh:
                 st = cls[h["harness"]]
                 rec = {"name": "%s/%s[%s%s]" % (h["group"], h["harness"], mode, "," + solver if solver else ""), "status": st["status"], "doc": h.get("doc", ""),
                        "target": h.get("target", ""), "bounded": h.get("bounded"), "time_s": st.get("time_s", 0.0)}
-                if st["status"] == "failed":
+                if st["status"] == "failed" and mode == "native":
+                    rec["kind"] = st.get("kind", "")
+                    rec["detail"] = st.get("detail", "")
+                    rec["witness"] = {"native_output": st.get("detail", "")[:1500], "decoded_any_values": re.findall(r"WITNESS (.*)", st.get("detail", ""))[:3]}
+                elif st["status"] == "failed":
                     test, fails = _playback(d, h, mode, features, per_timeout)
                     rec["kind"] = st.get("kind", "")
                     rec["detail"] = (fails or st.get("detail", ""))
